@@ -1,370 +1,154 @@
-// gofunc: a small Go -> Gallina translator for straight-line integer functions.
-// It type-checks a package of the repository (go/types; nothing fetched) and translates the
-// named functions/methods whose body is a single `return <expr>` built from parameters,
-// constants, integer conversions, shifts, bitwise and arithmetic operators, comparisons and
-// calls of other translated functions.  Every value is a Z; fixed-width semantics are made
-// explicit: a conversion or an operation of unsigned type uintN is wrapped `mod 2^N`, of
-// signed type intN it is re-interpreted in two's complement.  The output is regenerated on
-// every run, so the Coq theorems about these definitions are re-checked against what the
-// source says now.
+// gofunc: a small Go -> Gallina translator for an imperative, integer-valued subset of Go.
+//
+// It type-checks a package of the repository (go/ast + go/types; nothing is fetched) and
+// translates the named functions/methods into Gallina definitions.  The output is regenerated
+// on every run (bin/regen), so the Coq theorems about these definitions (cNN_src_*) are
+// re-checked against what the source says now.  This program, coq/Lib/GoSem.v and the rules
+// below are part of the trusted base of those theorems.  The rules are tested by
+// `go test ./...` in this directory (fixtures under testdata/) and validated differentially
+// against the compiled Go code by validate/ (bin/validate-gofunc).
 //
 // usage: gofunc <repo root> <module path> <pkgdir> <out.v> <prefix> Func [Type.Method ...]
+//
+//	gofunc -scan <repo root> <module path> <pkgdir>      (list what is translatable)
+//
+// ------------------------------------------------------------------------------ RULES
+// Values.   Every integer type (intN, uintN, int, uint, uintptr; word size = 64 bit) is Z;
+//
+//	bool is bool; a slice of integers ([]uintN, []intN, named types over them) and a string
+//	(its bytes) are `list Z`.  Nothing else has a representation.
+//	Inputs are ASSUMED to lie in the range of their Go types (nothing is wrapped on entry);
+//	every operation keeps its result in range:
+//	  conversion T(e), + - * / % << unary - ^   of unsigned type uintN:  (e) mod 2^N
+//	                                            of signed type intN:  two's complement
+//	                                            ((e + 2^(N-1)) mod 2^N - 2^(N-1))
+//	  & | ^ &^ >>            Z.land Z.lor Z.lxor Z.ldiff Z.shiftr (closed on in-range values;
+//	                         Z.shiftr of a negative number is the arithmetic shift)
+//	  / %                    Z.quot Z.rem (truncated); a divisor that is not a non-zero
+//	                         constant: go_quot/go_rem = Panic when it is 0
+//	  << >> by a variable    count n of signed type: Panic when n < 0; the count is capped
+//	                         (Z.min n N) - Go gives 0 (or -1) for n >= N as well
+//	  == != < <= > >=        Z.eqb ... (Bool.eqb on bools);  && || !  with short circuit
+//	  constants              folded by go/types, emitted as literals
+//	  len(s)                 go_len s (Z.of_nat (length s))
+//	  s[i]                   go_index s i: Panic unless 0 <= i < len s
+//	  s[i:]                  go_slice_from s i: Panic unless 0 <= i <= len s
+//	                         (s[:j], s[i:j] depend on cap(s): not translatable)
+//	  min, max               Z.min, Z.max
+//
+// Parameters.  A parameter (or receiver) of a representable type is one parameter of the
+//
+//	definition, v_<name>.  A parameter of struct / pointer-to-struct type contributes one
+//	parameter per field path that the body reads, v_<name>_<field>[_<field>...], in order of
+//	first use (pointers on the path are ASSUMED non-nil).  len(p.f) of a slice of
+//	non-integers is the parameter n_<name>_<field> (ASSUMED >= 0).  Fields, slices and
+//	package-level variables cannot be written, so these values are constant during the call.
+//
+// Statements.  x := e, var x T [= e], x = e, x op= e, x++, x--, a, b = e1, e2 (parallel),
+//
+//	a, b := f(...), _ = e (evaluated for its panics), if/else if/else (with init), switch on
+//	an integer/bool tag or tagless (no fallthrough; case expressions must not be able to
+//	panic), for cond {}, for init; cond; post {}, for {}, for i, v := range s (s a slice of
+//	integers), break, continue, return (also bare, with named results), panic(...), blocks.
+//	Only local variables can be assigned.  Each Go variable gets one Gallina name (a second
+//	variable of the same name: v_x_2); an assignment is a `let` that shadows it.
+//	Statement lists are translated in continuation-passing style: the statements after an
+//	`if`/`switch` are repeated in each branch that falls through.
+//
+// Loops.  Each loop becomes  <f>_loopK_body : ... -> state -> outcome (step state result)
+//
+//	(one iteration: Next s / Done s on a false condition or break / Ret r on return) and
+//	<f>_loopK fuel ... state := go_loop fuel (<f>_loopK_body ...) state.  The state is the
+//	tuple of the outer variables the loop assigns (in declaration order); the outer variables
+//	and inputs it only reads are extra parameters.  Every loop and every called function
+//	that loops gets the same `fuel : nat` = the bound on the iterations of each single loop.
+//
+// Calls.  Only functions/methods of the same package that were translated before (names are
+//
+//	given callees first).  A struct argument must itself be a parameter or a field path.
+//
+// Results.  One result: its type; several: a tuple.  A function in which nothing can panic
+//
+//	and nothing loops is a plain definition `: T`; any other is `: outcome T`
+//	(Ok v | Panic | OutOfFuel, see coq/Lib/GoSem.v) and takes `fuel` first if it loops.
+//
+// Everything else (floats, maps, channels, pointers, closures, defer, go, select, goto,
+//
+//	labels, append/make/copy, writes to fields or slice elements, calls outside the set,
+//	generic or variadic functions, range over strings/maps/channels/integers) makes the
+//	function `NOT TRANSLATABLE: reason`: a comment in the output, so a proof that needs the
+//	definition stops compiling.
+//
+// Not modelled: data races, stack overflow, out-of-memory, nil receivers.
 package main
 
 import (
 	"fmt"
-	"go/ast"
-	"go/constant"
-	"go/importer"
-	"go/parser"
-	"go/token"
-	"go/types"
 	"os"
-	"path/filepath"
 	"sort"
-	"strings"
+
+	"gofunc/tr"
 )
 
-type imp struct {
-	root, mod string
-	fset      *token.FileSet
-	std       types.Importer
-	cache     map[string]*types.Package
-}
-
-func (im *imp) Import(path string) (*types.Package, error) {
-	if p, ok := im.cache[path]; ok {
-		return p, nil
-	}
-	if path == im.mod || strings.HasPrefix(path, im.mod+"/") {
-		rel := strings.TrimPrefix(strings.TrimPrefix(path, im.mod), "/")
-		p, _, _ := im.check(rel, path)
-		return p, nil
-	}
-	first := strings.Split(path, "/")[0]
-	if !strings.Contains(first, ".") {
-		if p, err := im.std.Import(path); err == nil {
-			im.cache[path] = p
-			return p, nil
-		}
-	}
-	p := types.NewPackage(path, path[strings.LastIndex(path, "/")+1:])
-	p.MarkComplete()
-	im.cache[path] = p
-	return p, nil
-}
-
-func (im *imp) check(rel, path string) (*types.Package, *types.Info, []*ast.File) {
-	dir := filepath.Join(im.root, rel)
-	pkgs, _ := parser.ParseDir(im.fset, dir, func(fi os.FileInfo) bool {
-		n := fi.Name()
-		return !strings.HasSuffix(n, "_test.go") && !strings.Contains(n, "verif")
-	}, 0)
-	var files []*ast.File
-	for n, p := range pkgs {
-		if strings.HasSuffix(n, "_test") {
-			continue
-		}
-		names := []string{}
-		for fn := range p.Files {
-			names = append(names, fn)
-		}
-		sort.Strings(names)
-		for _, fn := range names {
-			files = append(files, p.Files[fn])
-		}
-		break
-	}
-	info := &types.Info{Types: map[ast.Expr]types.TypeAndValue{}, Uses: map[*ast.Ident]types.Object{}, Defs: map[*ast.Ident]types.Object{}, Selections: map[*ast.SelectorExpr]*types.Selection{}}
-	conf := types.Config{Importer: im, Error: func(error) {}, FakeImportC: true}
-	p, _ := conf.Check(path, im.fset, files, info)
-	if p == nil {
-		p = types.NewPackage(path, "x")
-	}
-	im.cache[path] = p
-	return p, info, files
-}
-
-type tr struct {
-	info   *types.Info
-	prefix string
-	want   map[string]bool
-	err    error
-}
-
-func (t *tr) fail(format string, a ...interface{}) string {
-	if t.err == nil {
-		t.err = fmt.Errorf(format, a...)
-	}
-	return "0"
-}
-
-// width and signedness of an integer type (word-sized types are taken as 64 bit)
-func intInfo(ty types.Type) (bits int, signed bool, ok bool) {
-	b, isb := ty.Underlying().(*types.Basic)
-	if !isb {
-		return 0, false, false
-	}
-	switch b.Kind() {
-	case types.Int8:
-		return 8, true, true
-	case types.Int16:
-		return 16, true, true
-	case types.Int32:
-		return 32, true, true
-	case types.Int64, types.Int:
-		return 64, true, true
-	case types.Uint8:
-		return 8, false, true
-	case types.Uint16:
-		return 16, false, true
-	case types.Uint32:
-		return 32, false, true
-	case types.Uint64, types.Uint, types.Uintptr:
-		return 64, false, true
-	}
-	return 0, false, false
-}
-
-func pow2(n int) string { return new(bigInt).pow2(n) }
-
-type bigInt struct{}
-
-func (bigInt) pow2(n int) string { return constant.Shift(constant.MakeInt64(1), token.SHL, uint(n)).ExactString() }
-
-func wrap(ty types.Type, e string) string {
-	bits, signed, ok := intInfo(ty)
-	if !ok {
-		return e
-	}
-	if !signed {
-		return fmt.Sprintf("((%s) mod %s)", e, pow2(bits))
-	}
-	return fmt.Sprintf("(((%s) + %s) mod %s - %s)", e, pow2(bits-1), pow2(bits), pow2(bits-1))
-}
-
-func lit(v constant.Value) string {
-	s := v.ExactString()
-	if strings.HasPrefix(s, "-") {
-		return "(" + s + ")"
-	}
-	return s
-}
-
-func (t *tr) expr(e ast.Expr) string {
-	if tv, ok := t.info.Types[e]; ok && tv.Value != nil {
-		v := tv.Value
-		if v.Kind() == constant.Int {
-			return lit(v)
-		}
-		if v.Kind() == constant.Bool {
-			if constant.BoolVal(v) {
-				return "true"
-			}
-			return "false"
-		}
-	}
-	switch x := e.(type) {
-	case *ast.ParenExpr:
-		return t.expr(x.X)
-	case *ast.Ident:
-		return "v_" + x.Name
-	case *ast.CallExpr:
-		// conversion?
-		if tv, ok := t.info.Types[x.Fun]; ok && tv.IsType() {
-			if len(x.Args) != 1 {
-				return t.fail("conversion with %d args", len(x.Args))
-			}
-			if _, _, ok := intInfo(tv.Type); !ok {
-				return t.fail("conversion to non-integer type %s", tv.Type)
-			}
-			return wrap(tv.Type, t.expr(x.Args[0]))
-		}
-		// method call recv.M(args) or function call F(args) of a translated function
-		switch f := x.Fun.(type) {
-		case *ast.SelectorExpr:
-			if sel, ok := t.info.Selections[f]; ok && sel.Kind() == types.MethodVal {
-				named := sel.Recv()
-				if p, ok := named.(*types.Pointer); ok {
-					named = p.Elem()
-				}
-				name := named.(*types.Named).Obj().Name() + "." + f.Sel.Name
-				if !t.want[name] {
-					return t.fail("call of untranslated method %s", name)
-				}
-				args := []string{t.expr(f.X)}
-				for _, a := range x.Args {
-					args = append(args, t.expr(a))
-				}
-				return "(" + t.prefix + strings.Replace(name, ".", "_", 1) + " " + strings.Join(args, " ") + ")"
-			}
-		case *ast.Ident:
-			if !t.want[f.Name] {
-				return t.fail("call of untranslated function %s", f.Name)
-			}
-			args := []string{}
-			for _, a := range x.Args {
-				args = append(args, t.expr(a))
-			}
-			return "(" + t.prefix + f.Name + " " + strings.Join(args, " ") + ")"
-		}
-		return t.fail("unsupported call")
-	case *ast.UnaryExpr:
-		ty := t.info.Types[e].Type
-		switch x.Op {
-		case token.SUB:
-			return wrap(ty, "- "+t.expr(x.X))
-		case token.XOR:
-			return wrap(ty, "Z.lnot "+t.expr(x.X))
-		case token.NOT:
-			return "(negb " + t.expr(x.X) + ")"
-		}
-		return t.fail("unsupported unary %s", x.Op)
-	case *ast.BinaryExpr:
-		a, b := t.expr(x.X), t.expr(x.Y)
-		ty := t.info.Types[e].Type
-		switch x.Op {
-		case token.SHL:
-			return wrap(ty, fmt.Sprintf("Z.shiftl %s %s", a, b))
-		case token.SHR:
-			return fmt.Sprintf("(Z.shiftr %s %s)", a, b)
-		case token.OR:
-			return fmt.Sprintf("(Z.lor %s %s)", a, b)
-		case token.AND:
-			return fmt.Sprintf("(Z.land %s %s)", a, b)
-		case token.XOR:
-			return fmt.Sprintf("(Z.lxor %s %s)", a, b)
-		case token.AND_NOT:
-			return fmt.Sprintf("(Z.ldiff %s %s)", a, b)
-		case token.ADD:
-			return wrap(ty, a+" + "+b)
-		case token.SUB:
-			return wrap(ty, a+" - "+b)
-		case token.MUL:
-			return wrap(ty, a+" * "+b)
-		case token.QUO:
-			return wrap(ty, fmt.Sprintf("Z.quot %s %s", a, b))
-		case token.REM:
-			return wrap(ty, fmt.Sprintf("Z.rem %s %s", a, b))
-		case token.EQL:
-			return fmt.Sprintf("(%s =? %s)", a, b)
-		case token.NEQ:
-			return fmt.Sprintf("(negb (%s =? %s))", a, b)
-		case token.LSS:
-			return fmt.Sprintf("(%s <? %s)", a, b)
-		case token.LEQ:
-			return fmt.Sprintf("(%s <=? %s)", a, b)
-		case token.GTR:
-			return fmt.Sprintf("(%s >? %s)", a, b)
-		case token.GEQ:
-			return fmt.Sprintf("(%s >=? %s)", a, b)
-		case token.LAND:
-			return fmt.Sprintf("(%s && %s)", a, b)
-		case token.LOR:
-			return fmt.Sprintf("(%s || %s)", a, b)
-		}
-		return t.fail("unsupported operator %s", x.Op)
-	}
-	return t.fail("unsupported expression %T", e)
-}
-
 func main() {
+	if len(os.Args) == 5 && os.Args[1] == "-scan" {
+		scan(os.Args[2], os.Args[3], os.Args[4])
+		return
+	}
 	if len(os.Args) < 7 {
 		fmt.Fprintln(os.Stderr, "usage: gofunc <repo> <module> <pkgdir> <out.v> <prefix> names...")
 		os.Exit(2)
 	}
 	root, mod, rel, out, prefix := os.Args[1], os.Args[2], os.Args[3], os.Args[4], os.Args[5]
-	names := os.Args[6:]
-	fset := token.NewFileSet()
-	im := &imp{root: root, mod: mod, fset: fset, std: importer.ForCompiler(fset, "source", nil), cache: map[string]*types.Package{}}
-	path := mod
-	if rel != "." {
-		path = mod + "/" + rel
-	}
-	_, info, files := im.check(rel, path)
-	want := map[string]bool{}
-	for _, n := range names {
-		want[n] = true
-	}
-	decls := map[string]*ast.FuncDecl{}
-	for _, f := range files {
-		for _, d := range f.Decls {
-			fd, ok := d.(*ast.FuncDecl)
-			if !ok {
-				continue
-			}
-			name := fd.Name.Name
-			if fd.Recv != nil && len(fd.Recv.List) == 1 {
-				rt := fd.Recv.List[0].Type
-				if s, ok := rt.(*ast.StarExpr); ok {
-					rt = s.X
-				}
-				if id, ok := rt.(*ast.Ident); ok {
-					name = id.Name + "." + name
-				}
-			}
-			decls[name] = fd
+	T := tr.New(tr.Load(root, mod, rel), prefix)
+	for _, n := range os.Args[6:] { // in the order given: callees first
+		if f := T.Translate(n); f.Err != nil {
+			fmt.Fprintf(os.Stderr, "gofunc: %s %s: %v\n", rel, n, f.Err)
 		}
 	}
-	var b strings.Builder
-	b.WriteString("(* GENERATED by tools/gofunc from the Go source on every run.  Do not edit.\n   One Gallina definition per translated Go function; all values are Z, fixed-width\n   semantics (wrap-around of conversions and operators) made explicit. *)\n")
-	b.WriteString("From Coq Require Import ZArith Bool.\nOpen Scope Z_scope.\n\n")
-	for _, n := range names { // in the order given: callees first
-		fd := decls[n]
-		cname := prefix + strings.Replace(n, ".", "_", 1)
-		if fd == nil || fd.Body == nil {
-			b.WriteString(fmt.Sprintf("(* %s: not found in the source *)\n\n", n))
-			continue
-		}
-		t := &tr{info: info, prefix: prefix, want: want}
-		var params []string
-		if fd.Recv != nil {
-			for _, f := range fd.Recv.List {
-				for _, id := range f.Names {
-					params = append(params, "v_"+id.Name)
-				}
-			}
-		}
-		for _, f := range fd.Type.Params.List {
-			for _, id := range f.Names {
-				params = append(params, "v_"+id.Name)
-			}
-		}
-		var body string
-		if len(fd.Body.List) == 1 {
-			if r, ok := fd.Body.List[0].(*ast.ReturnStmt); ok && len(r.Results) == 1 {
-				body = t.expr(r.Results[0])
-			} else {
-				t.fail("body is not a single return of one value")
-			}
-		} else {
-			t.fail("body has %d statements", len(fd.Body.List))
-		}
-		pos := fset.Position(fd.Pos())
-		if t.err != nil {
-			b.WriteString(fmt.Sprintf("(* %s (%s:%d): NOT TRANSLATABLE: %v *)\n\n", n, filepath.Base(pos.Filename), pos.Line, t.err))
-			continue
-		}
-		ret := "Z"
-		if res := fd.Type.Results; res != nil && len(res.List) == 1 {
-			if tv, ok := info.Types[res.List[0].Type]; ok {
-				if bt, ok := tv.Type.Underlying().(*types.Basic); ok && bt.Kind() == types.Bool {
-					ret = "bool"
-				}
-			}
-		}
-		ps := ""
-		if len(params) > 0 {
-			ps = " (" + strings.Join(params, " ") + " : Z)"
-		}
-		b.WriteString(fmt.Sprintf("(* %s, %s *)\nDefinition %s%s : %s :=\n  %s.\n\n", n, filepath.Base(pos.Filename), cname, ps, ret, body))
-	}
-	text := b.String()
+	text := T.File()
 	if old, err := os.ReadFile(out); err == nil && string(old) == text {
 		return
 	}
 	if err := os.WriteFile(out, []byte(text), 0o644); err != nil {
 		fmt.Fprintln(os.Stderr, err)
 		os.Exit(1)
+	}
+}
+
+// scan tries every function of the package (repeating until no new one succeeds, so that
+// callees come first) and prints which are translatable.
+func scan(root, mod, rel string) {
+	p := tr.Load(root, mod, rel)
+	var names []string
+	for n := range p.Decls {
+		names = append(names, n)
+	}
+	sort.Strings(names)
+	T := tr.New(p, "go_")
+	done := map[string]bool{}
+	reason := map[string]error{}
+	for progress := true; progress; {
+		progress = false
+		for _, n := range names {
+			if done[n] {
+				continue
+			}
+			f := T.Translate(n)
+			if f.Err == nil {
+				done[n], progress = true, true
+				kind := "plain"
+				if f.Monadic {
+					kind = "outcome"
+				}
+				fmt.Printf("OK   %-40s %s\n", n, kind)
+			}
+			reason[n] = f.Err
+		}
+	}
+	for _, n := range names {
+		if !done[n] {
+			fmt.Printf("no   %-40s %v\n", n, reason[n])
+		}
 	}
 }
